@@ -6,8 +6,10 @@ import (
 	"fmt"
 	"math"
 	"math/rand"
+	"sort"
 	"strconv"
 	"strings"
+	"time"
 
 	corev1 "k8s.io/api/core/v1"
 	"k8s.io/apimachinery/pkg/api/resource"
@@ -67,6 +69,9 @@ func reschedulable(p *corev1.Pod) bool {
 	}
 	return true
 }
+
+// soldOut: instance types whose every offering the harness made unavailable during the validation wait of the current round.
+var soldOut = map[string]bool{}
 
 // minAdvertisedCapacity: the smallest ReservationCapacity any offering of any catalog advertises for the reservation id.
 func minAdvertisedCapacity(d *common.DWorld, id string) int {
@@ -150,8 +155,72 @@ func run(r *mon.Report, tier string, idx int, rng *rand.Rand) {
 	}
 	_ = e.SyncState()
 	caseDesc := map[string]any{"case": idx, "options": optDesc, "pools": d.Desc["pools"], "nodes": d.NodeInfo, "catalogs": d.Specs, "frozen_pools": frozen}
+	// churn during the validation wait: some of the cheaper instance types sell out completely (every offering becomes
+	// unavailable). The validator simulates again after the wait; a command whose replacement still lists a sold-out type is
+	// not a subset of what is possible now and must be dropped.
+	soldOut = map[string]bool{}
+	savedDefault := e.Provider.Default
+	savedCatalog := map[string][]*cloudprovider.InstanceType{}
+	churned := false
+	// the provider hands out NEW instance-type objects when availability changes (instance types are immutable
+	// snapshots: Karpenter caches derived data on them), so the sold-out types are replaced, not edited in place
+	soldOutCopy := func(it *cloudprovider.InstanceType) *cloudprovider.InstanceType {
+		c := &cloudprovider.InstanceType{Name: it.Name, Requirements: it.Requirements, Capacity: it.Capacity, Overhead: it.Overhead}
+		for _, of := range it.Offerings {
+			o := *of
+			o.Available = false
+			c.Offerings = append(c.Offerings, &o)
+		}
+		return c
+	}
+	replace := func(its []*cloudprovider.InstanceType, names map[string]bool) []*cloudprovider.InstanceType {
+		out := make([]*cloudprovider.InstanceType, len(its))
+		for i, it := range its {
+			if names[it.Name] {
+				out[i] = soldOutCopy(it)
+			} else {
+				out[i] = it
+			}
+		}
+		return out
+	}
+	e.Clock.OnWait(func(w time.Duration) {
+		if w < 10*time.Second || churned || rng.Intn(2) != 0 {
+			return
+		}
+		churned = true
+		var all []*cloudprovider.InstanceType
+		seen := map[string]bool{}
+		for _, its := range d.Types {
+			for _, it := range its {
+				if !seen[it.Name] {
+					seen[it.Name] = true
+					all = append(all, it)
+				}
+			}
+		}
+		sort.Slice(all, func(i, j int) bool {
+			ci, cj := all[i].Capacity[corev1.ResourceCPU], all[j].Capacity[corev1.ResourceCPU]
+			if ci.Cmp(cj) != 0 {
+				return ci.Cmp(cj) < 0
+			}
+			return all[i].Name < all[j].Name
+		})
+		for k := 0; k < 2 && len(all) > 1; k++ {
+			soldOut[all[rng.Intn((len(all)+1)/2)].Name] = true // one of the smaller half
+		}
+		e.Provider.Default = replace(savedDefault, soldOut)
+		for pool, its := range e.Provider.Catalog {
+			if _, ok := savedCatalog[pool]; !ok {
+				savedCatalog[pool] = its
+			}
+			e.Provider.Catalog[pool] = replace(savedCatalog[pool], soldOut)
+		}
+		r.Inc("validation_waits_during_which_instance_types_sold_out")
+	})
 	rounds := 2 + rng.Intn(4)
 	for round := 0; round < rounds; round++ {
+		churned = false
 		cmds, err, panicked, pv, stack := d.Round()
 		if panicked {
 			r.Violate("panic-in-disruption-reconcile", fmt.Sprintf("%v", pv), caseDesc, stack)
@@ -163,6 +232,12 @@ func run(r *mon.Report, tier string, idx int, rng *rand.Rand) {
 		for _, cmd := range cmds {
 			judge(r, d, cmd, caseDesc, s2s)
 		}
+		// the sold-out types come back (for the next round)
+		e.Provider.Default = savedDefault
+		for pool, its := range savedCatalog {
+			e.Provider.Catalog[pool] = its
+		}
+		soldOut = map[string]bool{}
 		// commands stay in flight (their candidates keep their pods and are marked for deletion); most replacements come
 		// up as far as Registered: managed, with room, NOT initialized - nothing of another candidate may be re-homed there
 		for _, cmd := range cmds {
@@ -307,6 +382,13 @@ func judge(r *mon.Report, d *common.DWorld, cmd *disruption.Command, cs map[stri
 	ctReq := nc.Requirements.Get(v1.CapacityTypeLabelKey)
 	admitsSpot, admitsOD := ctReq.Has(v1.CapacityTypeSpot), ctReq.Has(v1.CapacityTypeOnDemand)
 	launchable := 0
+	for _, it := range nc.InstanceTypeOptions {
+		if soldOut[it.Name] {
+			r.Violate("replacement-lists-a-type-that-sold-out-during-validation", fmt.Sprintf("the accepted command's replacement still lists instance type %s, every offering of which became unavailable during the validation wait", it.Name), cs,
+				witness(map[string]any{"option": it.Name}))
+			break
+		}
+	}
 	for _, it := range nc.InstanceTypeOptions {
 		r.Inc("replacement_options_priced")
 		// price: worst case over every available offering the final requirements admit
